@@ -63,7 +63,10 @@ func stripIface(v ssa.Value) ssa.Value {
 }
 
 func c13(c *Ctx) {
+	c.sectionDispatch()
+	c.sectionWindow("R13.5")
 	P, R := c.P, c.R
+	c.singleIDHeader("R13.4")
 	R.Explain("R13.1", "literal framing: every format string that announces an IMAP literal (`{%v}\\r\\n%s`) receives len(E) for the count and the same E (same receiver field, not written in between) for the bytes — the announced length equals the bytes that follow.")
 	R.Explain("R13.2", "partial slicing: in internal/response every slice expression X[l:h] on a byte sequence is proved in-range against len(X) (l <= len(X), h <= len(X)) from the branch conditions that dominate it, by linear-inequality entailment (Fourier–Motzkin over the dominating comparisons, case split on phis).  Go itself only checks h against cap(X): a bound between len and cap silently returns bytes that follow the section.  l <= h (a panic, not wrong bytes) needs count >= 0, a value-range fact, and is not decided.")
 	R.Explain("R13.3", "HEADER.FIELDS / HEADER.FIELDS.NOT partition: both rfc822.Header.Fields and FieldsNot decide each keyed header entry by one lookup of the entry's mapKey in a set built with strings.ToLower from the requested names; Fields appends the entry exactly on the found edge and FieldsNot exactly on the not-found edge; what is appended is the entry's getAll bytes; every write of headerEntry.mapKey stores a strings.ToLower result (both sides normalise identically).")
@@ -487,4 +490,172 @@ func proveLE(f *ssa.Function, at *ssa.BasicBlock, v ssa.Value, atom string, stab
 		return false
 	}
 	return false
+}
+
+// singleIDHeader (R13.4 / R06.7): the server's ID header is inserted once.
+func (c *Ctx) singleIDHeader(rule string) {
+	P, R := c.P, c.R
+	R.Explain(rule, "the internal-ID header is spliced in exactly once: the literal handed to rfc822.SetHeaderValue / SetHeaderValueNoMemCopy (which prepend a header line, they do not replace one) never derives from the result of an earlier SetHeaderValue* call in the same function - otherwise the stored message carries two ID lines, BODY[] is no longer 'the appended message plus one ID line', and a re-delivered identical update no longer compares equal to what is stored.")
+	isSet := func(v ssa.Value) bool {
+		var call *ssa.Call
+		switch t := v.(type) {
+		case *ssa.Call:
+			call = t
+		case *ssa.Extract:
+			call, _ = t.Tuple.(*ssa.Call)
+		}
+		if call == nil {
+			return false
+		}
+		sc := call.Call.StaticCallee()
+		return sc != nil && strings.HasPrefix(engine.ShortName(sc), "SetHeaderValue") && engine.RelPkg(P.OwnPkgPath(sc)) == "rfc822"
+	}
+	n := 0
+	for _, f := range c.productFuncs() {
+		if engine.RelPkg(P.OwnPkgPath(f)) == "rfc822" {
+			continue
+		}
+		for _, cs := range engine.Calls(f) {
+			sc := cs.Common().StaticCallee()
+			if sc == nil || !strings.HasPrefix(engine.ShortName(sc), "SetHeaderValue") || engine.RelPkg(P.OwnPkgPath(sc)) != "rfc822" {
+				continue
+			}
+			n++
+			twice := engine.AnyBackward(cs.Common().Args[0], engine.FlowOpts{Loads: true}, func(x ssa.Value) bool { return isSet(x) })
+			R.Check(!twice, rule, c.name(f)+"|SetHeaderValue-input", P.Pos(cs.Pos()), "the literal given the ID header has not been given one before", "the literal passed to "+engine.ShortName(sc)+" can be the result of an earlier SetHeaderValue call: the stored message gets two ID header lines (byte-exactness and update idempotence are lost)")
+		}
+	}
+	R.Min(rule, "ID header insertions", n, 4)
+}
+
+// sectionDispatch (R13.6): BODY[<section>] keywords are served by the right part of the message.
+func (c *Ctx) sectionDispatch() {
+	P, R := c.P, c.R
+	R.Explain("R13.6", "section keyword table: in fetchBodySection each BodySection type returns what RFC 3501 6.4.5 names - MIME: the part's own header (never through the embedded-message handling); HEADER / TEXT: header / body after the embedded message/rfc822 handling; HEADER.FIELDS[.NOT]: Fields / FieldsNot of that header, FieldsNot exactly on the Negate edge; no section: the part's body - and renderSection names the same types MIME/HEADER/TEXT/HEADER.FIELDS[.NOT].  Two keywords sharing one case is reported.")
+	f := c.fn("R13.6", "internal/state.fetchBodySection")
+	if f == nil {
+		return
+	}
+	type want struct {
+		methods  []string
+		embedded bool
+	}
+	spec := map[string]want{
+		"BodySectionMIME":         {[]string{"Header"}, false},
+		"BodySectionHeader":       {[]string{"Header"}, true},
+		"BodySectionText":         {[]string{"Body"}, true},
+		"BodySectionHeaderFields": {[]string{"Fields", "FieldsNot"}, true},
+	}
+	// does v derive from a call of a local closure / helper that re-parses an embedded message (calls rfc822.Parse)?
+	throughEmbedded := func(v ssa.Value) bool {
+		return engine.AnyBackward(v, engine.FlowOpts{Loads: true, Calls: func(call *ssa.Call) []ssa.Value { return call.Call.Args }}, func(x ssa.Value) bool {
+			var call *ssa.Call
+			switch t := x.(type) {
+			case *ssa.Call:
+				call = t
+			case *ssa.Extract:
+				call, _ = t.Tuple.(*ssa.Call)
+			}
+			if call == nil {
+				return false
+			}
+			g := engine.FuncValue(call.Call.Value)
+			if g == nil {
+				g = call.Call.StaticCallee()
+			}
+			if g == nil || len(g.Blocks) == 0 || !P.IsOwn(g) || engine.RelPkg(P.OwnPkgPath(g)) != "internal/state" {
+				return false
+			}
+			for _, cs := range engine.Calls(g) {
+				if sc := cs.Common().StaticCallee(); sc != nil && engine.ShortName(sc) == "Parse" && engine.RelPkg(P.OwnPkgPath(sc)) == "rfc822" {
+					return true
+				}
+			}
+			return false
+		})
+	}
+	seenTypes := map[string]bool{}
+	for _, b := range f.Blocks {
+		for _, in := range b.Instrs {
+			ta, ok := in.(*ssa.TypeAssert)
+			if !ok || !ta.CommaOk {
+				continue
+			}
+			nt := engine.NamedOf(ta.AssertedType)
+			if nt == nil {
+				continue
+			}
+			w, isSpec := spec[nt.Obj().Name()]
+			if !isSpec {
+				continue
+			}
+			iff := engine.IfOf(b)
+			if iff == nil {
+				continue
+			}
+			seenTypes[nt.Obj().Name()] = true
+			key := "fetchBodySection|" + nt.Obj().Name()
+			okCase, why := true, ""
+			nret := 0
+			for _, ret := range engine.Returns(f) {
+				if !engine.EdgeDominates(b, 0, ret.Block()) {
+					continue
+				}
+				if lr := engine.LastResult(ret); lr == nil || !engine.IsNilConst(lr) {
+					continue
+				}
+				nret++
+				call, isCall := engine.ResultOf(ret, 0).(*ssa.Call)
+				if !isCall || call.Call.StaticCallee() == nil || len(call.Call.Args) == 0 {
+					okCase, why = false, "the returned bytes are not the result of a Section/Header accessor"
+					continue
+				}
+				m := engine.ShortName(call.Call.StaticCallee())
+				found := false
+				for _, x := range w.methods {
+					if x == m {
+						found = true
+					}
+				}
+				if !found {
+					okCase, why = false, "returns "+m+"() where "+strings.Join(w.methods, "/")+"() is specified"
+				}
+				if emb := throughEmbedded(call.Call.Args[0]); emb != w.embedded {
+					if w.embedded {
+						okCase, why = false, "does not apply the embedded message/rfc822 handling"
+					} else {
+						okCase, why = false, "goes through the embedded message/rfc822 handling (MIME is the part's own header)"
+					}
+				}
+				if len(w.methods) == 2 {
+					// FieldsNot exactly on the Negate-true edge
+					onNegate := false
+					for _, d := range f.Blocks {
+						i2 := engine.IfOf(d)
+						if i2 == nil {
+							continue
+						}
+						if u, ok := i2.Cond.(*ssa.UnOp); ok {
+							if fa, ok := u.X.(*ssa.FieldAddr); ok && fieldOfAddr(fa).Name() == "Negate" && engine.EdgeDominates(d, 0, ret.Block()) {
+								onNegate = true
+							}
+						}
+					}
+					if onNegate != (m == "FieldsNot") {
+						okCase, why = false, m+"() is returned on the wrong edge of section.Negate"
+					}
+				}
+			}
+			if nret == 0 {
+				okCase, why = false, "no successful return is specific to this keyword (it shares a case with another keyword or falls through)"
+			}
+			R.Check(okCase, "R13.6", key, P.Pos(ta.Pos()), "returns "+strings.Join(w.methods, "/")+fmtf(" (embedded handling: %v)", w.embedded), why+": BODY["+strings.TrimPrefix(nt.Obj().Name(), "BodySection")+"] returns other bytes than the named section")
+		}
+	}
+	for name := range spec {
+		if !seenTypes[name] {
+			R.Fail("R13.6", "fetchBodySection|"+name, P.Pos(f.Pos()), "no case for "+name)
+		}
+	}
+	R.Min("R13.6", "section keyword cases", len(seenTypes), 4)
 }
